@@ -204,8 +204,9 @@ func incrementBytes(in []byte) []byte {
 	for i := len(rv) - 1; i >= 0; i-- {
 		rv[i] = rv[i] + 1
 		if rv[i] != 0 {
-			// didn't overflow, so stop
-			break
+			// didn't overflow, so stop; the bytes after i wrapped
+			// around to 0x00 and are not part of the next key
+			return rv[:i+1]
 		}
 	}
 	return rv
